@@ -61,3 +61,31 @@ func H_Self_Violation() {
 	vrt.Assert("not_three_halves", x*2 != 3)
 	vrt.Reach("end")
 }
+
+// H_Self_Select: the executor's restricted select: a free list with try-receive and
+// try-send (select with default) behaves like the native run.
+func H_Self_Select() {
+	free := make(chan int, 1)
+	take := func() int {
+		select {
+		case v := <-free:
+			return v
+		default:
+		}
+		return -1
+	}
+	give := func(v int) bool {
+		select {
+		case free <- v:
+			return true
+		default:
+		}
+		return false
+	}
+	vrt.Assert("empty_take", take() == -1)
+	vrt.Assert("give_fits", give(7))
+	vrt.Assert("give_full", !give(8))
+	vrt.Assert("take_back", take() == 7)
+	vrt.Assert("empty_again", take() == -1)
+	vrt.Reach("end")
+}
